@@ -30,6 +30,10 @@ fn main() {
     // the zone is fixed per process: the check groups the cases by the zone they ask for
     // (`NOTE tz`) and passes it in FVH_TZ
     std::env::set_var("TZ", std::env::var("FVH_TZ").unwrap_or_else(|_| "UTC".to_string()));
+    // `DeferredNow::force_utc()` is a one-way switch of the process, too
+    if std::env::var("FVH_FORCE_UTC").as_deref() == Ok("1") {
+        flexi_logger::DeferredNow::force_utc();
+    }
     let args: Vec<String> = std::env::args().collect();
     if args.len() < 2 {
         eprintln!("usage: fvh gen|exec|child ...");
